@@ -65,3 +65,48 @@ Example C09_nonvacuous :
   /\ parse N gen_lvl gen_asc [TAtom 1; TOp OpEq; TAtom 2; TOp OpEq; TAtom 3] = None
   /\ parse N gen_lvl gen_asc (toks N (Bin OpMul (Bin OpAdd (Atom 1) (Atom 2)) (Atom 3))) <> Some (Bin OpMul (Bin OpAdd (Atom 1) (Atom 2)) (Atom 3)).
 Proof. vm_compute. repeat split; discriminate. Qed.
+
+(* PART 2: the lexer (model Lexer.v of lexer.go, function by function; tied to the code by the lex stream of
+   checks/c09.py on every run).  These two serve C08 and C17. *)
+From Verif Require Import c09.Lexer c09.LexProofs.
+
+(* C08 (lexer part).  For EVERY byte string src, and WHATEVER the parser does to the lexer between two Lex
+   calls as long as it leaves the position alone (the grammar's only feedback is inString := true), lexing
+   - terminates within len(src)+1 Lex calls (fuel S (length src) suffices: the offset strictly increases on
+     every token that is not the end of input),
+   - never reaches a model-error branch: no  l.source[i]  or  l.source[i:j]  out of range (the model returns
+     None there; the result is Some),
+   - delivers a stream that ends with an end-of-input token (eof, or a NUL byte, which goyacc treats alike),
+   - and for every token the offset is within [0, len src] and the (Offset, Token) that lexer.Error would
+     report satisfy  Offset <= len src  and  Token = the bytes of src ending at Offset. *)
+Theorem C08_lex_total : forall (S0 : Type) (F : tk -> S0 -> lexer -> S0 * lexer) (st : S0),
+  (forall k s l, lp (snd (F k s l)) = lp l) ->
+  forall src : list N, exists ts : list ltok,
+    lex_with S0 F (S (List.length src)) (newLexer src) st = Some ts /\
+    Forall (fun t => (tend t <= List.length src)%nat /\ (fst (terr t) <= List.length src)%nat /\
+                     exists pre, firstn (fst (terr t)) src = pre ++ snd (terr t)) ts /\
+    exists ts' t, ts = ts' ++ [t] /\ is_end (tkind t) = true /\ Forall (fun x => is_end (tkind x) = false) ts'.
+Proof. exact lex_total. Qed.
+Print Assumptions C08_lex_total.
+
+(* C17 (lexer part).  One Lex call from any lexer state whose position is consistent with the source
+   (offset <= len src and the remaining bytes are src[offset:]; true initially and preserved by Lex and by the
+   parser's feedback) and with ANY value of inString / token / tokenType: it returns, the new position is
+   consistent, the offset does not decrease and strictly increases unless eof is returned, and the ParseError
+   that lexer.Error would build now has Offset = the new l.offset <= len src and Token = the bytes of src ending
+   at Offset (possibly empty) — for every token kind, including the quotes and the `\(` of an interpolated
+   string and invalid UTF-8 bytes. *)
+Theorem C17_lex_offset : forall (src : list N) (l : lexer), vp src (lp l) ->
+  exists k l', Lex l = Some (k, l') /\ vp src (lp l') /\
+    (po (lp l) <= po (lp l'))%nat /\ (k <> KEOF -> (po (lp l) < po (lp l'))%nat) /\
+    fst (lex_error l') = po (lp l') /\ (fst (lex_error l') <= List.length src)%nat /\
+    exists pre, firstn (fst (lex_error l')) src = pre ++ snd (lex_error l').
+Proof. exact lex_offset. Qed.
+Print Assumptions C17_lex_offset.
+
+(* non-vacuity: the stream of `1 "a\(1)" x` rejected at the opening quote reports Offset 3 and Token = the quote *)
+Example C17_nonvacuous :
+  option_map (map (fun t => (tend t, terr t))) (tokenize (codes "1 ""a\(1)"""))
+  = Some [(1, (1, [49%N])); (3, (3, [34%N])); (4, (4, [97%N])); (6, (6, [92%N; 40%N])); (7, (7, [49%N])); (8, (8, [41%N]));
+          (9, (9, [34%N])); (9, (9, []))]%nat.
+Proof. vm_compute. reflexivity. Qed.
